@@ -336,6 +336,18 @@ func readableSet.HasAll$1
   modifies nothing
   ensures (r0 == nil) <==> has((*r).SerializableOrderedMap.OrderedMap.dictionary.m, element)
 
+-- Intersect: the receiver's elements that the other set has, in the RECEIVER's order - it is the receiver that is filtered
+-- (checked for this statement only - opt only-ghost-asserts)
+func readableSet.Intersect
+  instantiate T: int
+  opt only-ghost-asserts
+  modifies everything
+  ghost local filtered Bool
+  ghost at entry: filtered = false
+  ghost before call readableSet.Filter: assert arg0 == r
+  ghost after call readableSet.Filter: filtered = true
+  ghost at return: assert filtered
+
 -- Filter: an element enters the result iff the (pure) predicate accepts it; the result holds accepted elements only
 func readableSet.Filter
   instantiate T: int
